@@ -86,12 +86,22 @@ class JaqalLexer(Lexer):
         return token
 
     def INT(self, token):
-        token.value = int(token.value)
+        try:
+            token.value = int(token.value)
+        except ValueError:
+            # Python refuses to convert absurdly long digit strings
+            self.literal_error(token, "Integer literal too long")
         return token
 
     def NUMBER(self, token):
         token.value = float(token.value)
+        if token.value in (float("inf"), float("-inf")):
+            self.literal_error(token, "Number out of range")
         return token
+
+    def literal_error(self, token, message):
+        col = token.index - self.text.rfind("\n", 0, token.index)
+        raise JaqalParseError("<string>", self.lineno, col, message)
 
     def BININT(self, token):
         token.value = int(token.value[1:-1], base=2)
